@@ -471,6 +471,23 @@ fn c06_one(bytes: Vec<u8>, phase: usize) -> (End, Vec<(String, String)>, u64) {
             ctx.inject(0, bytes.clone());
             ctx.sleep_ms(60).await;
         }
+        if phase == 3 {
+            // a fragment of a change the reader KNOWS to be missing: change 2 of `w` is fragmented and announced by
+            // HEARTBEAT but every one of its own fragments is dropped, so the injected (mutated) DATA_FRAG - captured for
+            // exactly this writer and sequence number - is all the reader holds of it when it answers the next
+            // HEARTBEAT (NACK_FRAG computation: data_size / fragment_size, missing-fragment search) and when the repair
+            // fragments arrive afterwards (reassembly next to the forged fragment)
+            crate::sim::with(|wd| {
+                wd.net.filter = Some(Box::new(|d, m| d.src == 1 && !d.meta && m.subs.iter().any(|s| s.id == crate::wire::DATA_FRAG && s.sn == 2)))
+            });
+            let _ = w.write(sample(1, 0, 10), None).await;
+            let _ = w.write(sample(2, 1, 150), None).await;
+            ctx.sleep_ms(30).await;
+            ctx.inject(0, bytes.clone());
+            ctx.sleep_ms(450).await;
+            crate::sim::with(|wd| wd.net.filter = None);
+            ctx.sleep_ms(450).await;
+        }
         // afterwards: API still answers, communication with the well-behaved peer still works
         if n1.participant.get_qos().await.is_err() {
             ctx.violation("api-dead/get_qos", "get_qos failed after the injection");
@@ -515,6 +532,11 @@ fn c06_cases(thorough: bool) -> Vec<(usize, String, Vec<u8>)> {
             let reduced = d.starts_with("trunc@") || d.starts_with("u32@") || d == "identity";
             if from_p2 && (thorough || reduced) {
                 cases.push((2usize, format!("{} {d}", s.name), b.clone()));
+            }
+            // phase 3 (fragment of a known-missing change) for the user DATA_FRAG datagrams of P2: field substitutions,
+            // truncations, identity (quick), everything (thorough)
+            if from_p2 && s.name.contains("16/") && (thorough || reduced || d.starts_with("u16@")) {
+                cases.push((3usize, format!("{} {d}", s.name), b.clone()));
             }
             if thorough && reduced {
                 cases.push((0usize, format!("{} {d}", s.name), b));
